@@ -166,6 +166,68 @@ Proof.
 Qed.
 End RT.
 
+(* ------------------------------ formal parameters of a CircuitGate definition *)
+Section Formals.
+Local Open Scope list_scope.
+Lemma body_formals_from_concat : forall ops k,
+  concat (body_formals_from ops k) = seq k (gate_num_params ops).
+Proof.
+  induction ops as [|[b n] t IH]; intros k; simpl; auto.
+  assert (E : (if b then k + n else k + n) = k + n) by (destruct b; reflexivity).
+  rewrite E, IH. now rewrite <- seq_app.
+Qed.
+
+(* the body lines use exactly the header's formals p0..p{n-1}, each once, in body order *)
+Theorem body_formals_partition : forall ops,
+  concat (body_formals ops) = header_formals ops /\ NoDup (concat (body_formals ops)).
+Proof.
+  intros ops. unfold body_formals, header_formals. rewrite body_formals_from_concat.
+  split; [reflexivity | apply seq_NoDup].
+Qed.
+
+(* line i gets the contiguous slice that starts at the sum of the earlier num_params *)
+Theorem body_formals_nth : forall ops i b n,
+  nth_error ops i = Some (b, n) ->
+  nth_error (body_formals ops) i = Some (seq (gate_num_params (firstn i ops)) n).
+Proof.
+  intros ops i b n. unfold body_formals.
+  assert (G : forall ops i k, nth_error ops i = Some (b, n) ->
+            nth_error (body_formals_from ops k) i = Some (seq (k + gate_num_params (firstn i ops)) n)).
+  { induction ops0 as [|[b' n'] t IH]; intros i0 k H; destruct i0; simpl in *; try discriminate.
+    - injection H as -> ->. now rewrite Nat.add_0_r.
+    - assert (E : (if b' then k + n' else k + n') = k + n') by (destruct b'; reflexivity).
+      rewrite E, (IH i0 (k + n') H). f_equal. f_equal. lia. }
+  intros H. now rewrite (G ops i 0 H).
+Qed.
+
+(* hence instantiating the definition with the gate's parameter vector (the
+   concatenation of the body operations' parameters) hands every body operation its own
+   parameters back, nested CircuitGates included *)
+Theorem body_formals_select : forall (A : Type) (pss : list (bool * list A)),
+  map (select (concat (map snd pss)))
+      (body_formals (map (fun p => (fst p, length (snd p))) pss))
+  = map (fun p => map Some (snd p)) pss.
+Proof.
+  intros A pss. unfold body_formals.
+  assert (G : forall pss (pre : list A),
+            map (select (pre ++ concat (map snd pss)))
+                (body_formals_from (map (fun p => (fst p, length (snd p))) pss) (length pre))
+            = map (fun p => map Some (snd p)) pss).
+  { induction pss0 as [|[b ps] t IH]; intros pre; simpl; auto.
+    assert (E : (if b then length pre + length ps else length pre + length ps) = length pre + length ps)
+      by (destruct b; reflexivity).
+    rewrite E. f_equal.
+    - unfold select. clear. revert pre. induction ps as [|x ps IHp]; intros pre; simpl; auto.
+      f_equal.
+      + rewrite nth_error_app2 by lia. now rewrite Nat.sub_diag.
+      + specialize (IHp (pre ++ [x])). rewrite app_length in IHp. simpl in IHp.
+        rewrite <- app_assoc in IHp. simpl in IHp.
+        replace (S (length pre)) with (length pre + 1) by lia. exact IHp.
+    - specialize (IH (pre ++ ps)). rewrite app_length, <- app_assoc in IH. exact IH. }
+  exact (G pss []).
+Qed.
+End Formals.
+
 (* instantiated with the generated tables *)
 Theorem rt_tables_ok : forallb (rt_ok dec_table) lib_gates = true.
 Proof. vm_compute. reflexivity. Qed.
